@@ -230,6 +230,9 @@ def reindex_database(
     if num_of_updates == 0:
         c.zprint("NO ZORG FILES HAVE BEEN MODIFIED")
 
+    if cmd.paths:
+        # Only the given pages were hashed, so keep every other page's entry.
+        file_to_hash = old_file_to_hash | file_to_hash
     _write_file_hash_to_disk(file_hash_path, file_to_hash)
     error_file_whitelist.write_text("\n".join(sorted(error_files)))
     session.commit()
